@@ -221,6 +221,9 @@ func dense(r *runner) {
 			{Name: "lo", Init: "5", Kind: "min", F: 2}, {Name: "cp", Init: "", Kind: "copy", A: "lo"}}},
 		{Groups: []int{2, 1}, Cols: []ColDef{{Name: "n", Init: "3", Kind: "count"}, {Name: "w", Init: "", Kind: "last", F: 0}}},
 		{Groups: []int{0}, Cols: []ColDef{{Name: "s", Init: "0", Kind: "sum", F: 2}}},
+		// group expressions that ask for a key (an accumulator's name, an unknown name, {.}): empty, whatever earlier samples left behind
+		{Groups: []int{-1, 1}, Cols: []ColDef{{Name: "l", Init: "none", Kind: "last", F: 2}, {Name: "n", Init: "0", Kind: "count"}}},
+		{Groups: []int{1, -3, -2}, Cols: []ColDef{{Name: "s", Init: "0", Kind: "sum", F: 2}}},
 	}
 	for i, d := range defs {
 		denseEnum(r, "accum-"+strconv.Itoa(i), asyms, c.N(4, 6), Case{Agg: "accum", Full: true, Acc: d}, nil)
@@ -634,6 +637,9 @@ func genAccum(rr *run.Rand, c *run.Ctx) (*Case, []string) {
 		d.Groups = []int{0}
 	default:
 		d.Groups = []int{1}
+	}
+	if rr.Intn(8) == 0 {
+		d.Groups = append(d.Groups, []int{-1, -2, -3}[rr.Intn(3)])
 	}
 	ncol := rr.Range(1, 5)
 	// ragged: elements with 1..5 fields; only string-valued columns (no helper error markers to model)
